@@ -51,7 +51,8 @@ fn quote_c_style(name: &[u8], fully: bool) -> Vec<u8> {
     out
 }
 
-const TRAILERS: [&[u8]; 7] = [b"", b" x", b"\"", b"\\n", b"\t\"a\"", b"0", b"\n"];
+// the last two: another quoted word follows and there is no backslash anywhere (the shape of `git status` rename lines)
+const TRAILERS: [&[u8]; 9] = [b"", b" x", b"\"", b"\\n", b"\t\"a\"", b"0", b"\n", b" -> \"c d\"", b" \"\""];
 
 /// `quoted` is the form git prints for `raw`. Returns the outcome class.
 fn check_undo(raw: &[u8], quoted: &[u8]) -> Result<&'static str, String> {
@@ -153,7 +154,7 @@ pub fn run(run: &'static Run) {
     run.rule(format!(
         "names: every byte string of length 0..=2 over all 256 byte values, plus all strings of length 3..={model_len} over the 18 tokens \
          {{a \" \\ LF TAB CR BEL BS VT FF 0x01 0x7f 0x80 0xff SP 0 7 n}} (digits and letters that could be absorbed into a preceding escape); \
-         each quoted both ways (core.quotePath on/off) and followed by each of 7 trailers {{none, ' x', '\"', '\\n', TAB\"a\", '0', LF}}; \
+         each quoted both ways (core.quotePath on/off) and followed by each of 9 trailers {{none, ' x', '\"', '\\n', TAB\"a\", '0', LF, ' -> \"c d\"', ' \"\"'}}; \
          sub `git`: the quoted form is what `git ls-files` prints for an index entry of that name (names without NUL and '/', length 3..={git_len} for the token part); \
          sub `model`: the quoted form comes from a transcription of git's quote_c_style that the `git` sub-check compares with git's output on every name. \
          oracle: undo(quoted+trailer) == (name, len(quoted)); for names git prints verbatim undo(input) == (input, len(input)) borrowed. \
@@ -279,6 +280,17 @@ pub fn run(run: &'static Run) {
                     Ok(cl) => class[i] = cl,
                     Err(m) => return Err(m),
                 }
+            }
+            // `git status --short` / porcelain v1 (quote_path with QUOTE_PATH_QUOTE_SP) additionally wraps names that contain a
+            // blank but need no escape in plain double quotes: a quoted form without any backslash
+            if c.raw.contains(&b' ') && quote_c_style(&c.raw, true) == c.raw.0 {
+                let mut forced = vec![b'"'];
+                forced.extend_from_slice(&c.raw);
+                forced.push(b'"');
+                if let Err(m) = check_undo(&c.raw, &forced) {
+                    return Err(m);
+                }
+                return ok("quoted-for-blank-only");
             }
             match class {
                 ["unquoted", _] => ok_trivial("unquoted"),
